@@ -286,9 +286,12 @@ theorem whole_nd_eval (env : Env) (root : Msg) (e : Expr) (he : wholeHasDiscard 
         | none => exact h
         | some t => exact tail t d
     all_goals
-      rcases env.fileTime _ with _ | ⟨t, s⟩
+      rcases env.fileTime _ with _ | sb
       · exact h
-      · exact tail t s
+      · dsimp only
+        rcases env.timeFormat _ with _ | s
+        · exact h
+        · exact tail _ s
   | header lno names p =>
     intro part m st h
     simp only [eval]
@@ -374,11 +377,11 @@ theorem whole_nd_interp_go (macros : Option (List (Bytes × Bytes))) :
       · exact hc m h1
       · rw [h1, hty]; exact hrest m0 (List.mem_cons_self ..)
 
-theorem whole_nd_loopT (env : Env) (tf : Int → Option Bytes) (root : Msg) (e : Expr)
+theorem whole_nd_loopT (env : Env) (root : Msg) (e : Expr)
     (ih : ∀ (part : Nat) (m : Msg) (st : St), NoDiscard st.ml →
-      (evalT env tf root e part m st).AllRet fun r => NoDiscard r.2.ml)
+      (evalT env root e part m st).AllRet fun r => NoDiscard r.2.ml)
     (part : Nat) (ps : List Msg) :
-    ∀ (i : Nat) (st : St), NoDiscard st.ml → (evalT.loop env tf root e part ps i st).AllRet fun r => NoDiscard r.2.ml := by
+    ∀ (i : Nat) (st : St), NoDiscard st.ml → (evalT.loop env root e part ps i st).AllRet fun r => NoDiscard r.2.ml := by
   induction ps with
   | nil => intro i st h; simp only [evalT.loop]; exact h
   | cons p rest ihp =>
@@ -391,12 +394,12 @@ theorem whole_nd_loopT (env : Env) (tf : Int → Option Bytes) (root : Msg) (e :
     · exact ihp (i + 1) s1 h1
     · exact h1
 
-theorem whole_nd_loopBT (env : Env) (tf : Int → Option Bytes) (root : Msg) (e : Expr)
+theorem whole_nd_loopBT (env : Env) (root : Msg) (e : Expr)
     (ih : ∀ (part : Nat) (m : Msg) (st : St), NoDiscard st.ml →
-      (evalT env tf root e part m st).AllRet fun r => NoDiscard r.2.ml)
+      (evalT env root e part m st).AllRet fun r => NoDiscard r.2.ml)
     (part : Nat) (ps : List Msg) :
     ∀ (i : Nat) (ev : Tri) (st : St), NoDiscard st.ml →
-      (evalT.loopB env tf root e part ps i ev st).AllRet fun r => NoDiscard r.2.ml := by
+      (evalT.loopB env root e part ps i ev st).AllRet fun r => NoDiscard r.2.ml := by
   induction ps with
   | nil => intro i ev st h; simp only [evalT.loopB]; exact h
   | cons p rest ihp =>
@@ -410,9 +413,9 @@ theorem whole_nd_loopBT (env : Env) (tf : Int → Option Bytes) (root : Msg) (e 
     · exact h1
 
 /-- Evaluation (asking the operating system) of a tree without `discard` adds no discard entry, whatever the answers. -/
-theorem whole_nd_evalT (env : Env) (tf : Int → Option Bytes) (root : Msg) (e : Expr) (he : wholeHasDiscard e = false) :
+theorem whole_nd_evalT (env : Env) (root : Msg) (e : Expr) (he : wholeHasDiscard e = false) :
     ∀ (part : Nat) (m : Msg) (st : St), NoDiscard st.ml →
-      (evalT env tf root e part m st).AllRet fun r => NoDiscard r.2.ml := by
+      (evalT env root e part m st).AllRet fun r => NoDiscard r.2.ml := by
   -- nodes handed to `eval`
   have leaf : ∀ (e : Expr), wholeHasDiscard e = false → ∀ (part : Nat) (m : Msg) (st : St), NoDiscard st.ml →
       (Ask.ret (eval env root e part m st) : Ask (Tri × St)).AllRet fun r => NoDiscard r.2.ml :=
@@ -491,13 +494,13 @@ theorem whole_nd_evalT (env : Env) (tf : Int → Option Bytes) (root : Msg) (e :
     simp only [evalT]
     cases getAttachments m with
     | none => exact h
-    | some parts => exact whole_nd_loopT env tf root e (ih he) part parts 0 st h
+    | some parts => exact whole_nd_loopT env root e (ih he) part parts 0 st h
   | attBlock lno e ih =>
     intro part m st h
     simp only [evalT]
     cases getAttachments m with
     | none => exact h
-    | some parts => exact whole_nd_loopBT env tf root e (ih he) part parts 0 .nomatch st h
+    | some parts => exact whole_nd_loopBT env root e (ih he) part parts 0 .nomatch st h
   | date lno field cmp age =>
     intro part m st h
     cases field
@@ -576,7 +579,7 @@ theorem whole_msVerdictA_nd (env : PEnv) (orc : EvalOracles) (expr : Expr) (he :
     (as : List SysAns) (ml : MatchList) (msgs : Nat → Msg) (fl : MFlags)
     (h : msVerdictA env orc expr ms as = .act ml msgs fl) : NoDiscard ml :=
   whole_evVerdict_nd env orc ms _
-    ((whole_nd_evalT (msgEnv env orc ms.path) orc.timeFormat ms.msg expr he 0 ms.msg { ml := [], flags := ms.flags }
+    ((whole_nd_evalT (msgEnv env orc ms.path) ms.msg expr he 0 ms.msg { ml := [], flags := ms.flags }
       (by intro m hm; cases hm)).run as) ml msgs fl h
 
 /-- **A rule tree without `discard` never discards** - whatever the file's name and content, and whatever the operating
